@@ -96,6 +96,13 @@ CLAIMED.update({
    note="disjointness of live physical pages over histories, multi-page Free, cross-process mirror collisions and the buddy allocator are not decided; two defects (stale mirror entry on free, mutate-while-ranging in removeFreedBuffers) found and repaired by fix: commits"),
 })
 
+CLAIMED.update({
+ "C05": dict(
+   text="Structural sources of host-dependent order and values in all code that runs inside a simulation (driver, emulator, decoder, kernels, protocol, sampling, every timing component, timing configuration, NVIDIA model): every range over a map is classified as order-insensitive or carries a one-line exception that is re-validated where possible (InstType.ID has no reader), host-dependent value sources are enumerated against an exception table whose sinks are checked to have no reader, goroutines / multi-way selects and unstable sorts are inventoried. Equality of whole runs across host schedules is a runtime quantity and is not decided.",
+   ref="4/C05", technique="type-resolved syntactic classification of map ranges, source/sink enumeration with who-may-read, inventory of concurrency constructs and sorts",
+   note="akita's engines are outside /repo; the parallel engine and float summation order inside kernels are not decided; one defect (map-order iteration in page migration) found and repaired by a fix: commit"),
+})
+
 PENDING = {}
 
 NOT_APPLICABLE = {
